@@ -80,6 +80,34 @@ Proof.
     + exact (make_accessible_no_oob _ _ _ _ _ _ HR).
 Qed.
 
+(** the JIT's variant: only the probed cell is requested; the other end of the window stays inside
+    because growth never reduces the room on either side *)
+Lemma movj_winv : forall t s base d ok r, WInv t s base -> - MAG <= s_pos s + d <= MAG ->
+  r_probe_jit pol mn mx ok (t_mov t d) d = r ->
+  match r with
+  | TOk t' => exists base', WInv t' {| s_cells := s_cells s; s_pos := s_pos s + d; s_acc := s_acc s |} base'
+  | RawOob _ => False
+  | _ => True
+  end.
+Proof.
+  intros t s base d ok r (HI & L & U) Hd HR.
+  pose proof (mov_inv t s base HI d Hd) as HI1.
+  set (s1 := {| s_cells := s_cells s; s_pos := s_pos s + d; s_acc := s_acc s |}) in *.
+  unfold r_probe_jit in HR.
+  destruct (t_check (t_mov t d) (if d <? 0 then mn else mx)) eqn:C.
+  - subst r. exists base. split; [exact HI1|]. cbn [s_pos s1 t_mov t_size].
+    destruct (d <? 0) eqn:D.
+    + apply Z.ltb_lt in D. rewrite (check_spec _ _ _ HI1 mn ltac:(lia)) in C. cbn [s_pos s1 t_mov t_size] in C.
+      apply andb_prop in C. destruct C as [C1 C2]. apply Z.leb_le in C1. lia.
+    + apply Z.ltb_ge in D. rewrite (check_spec _ _ _ HI1 mx ltac:(lia)) in C. cbn [s_pos s1 t_mov t_size] in C.
+      apply andb_prop in C. destruct C as [C1 C2]. apply Z.ltb_lt in C2. lia.
+  - destruct r as [t'|i| |]; try exact I.
+    + destruct (grow_inv_mono pol (t_mov t d) s1 base _ _ ok t' HP HI1 HR) as (base' & HI' & (R1 & R2) & M1 & M2).
+      exists base'. split; [eapply forget_acc; exact HI'|]. cbn [s_pos s1 t_mov t_size] in *.
+      destruct (d <? 0) eqn:D; [apply Z.ltb_lt in D|apply Z.ltb_ge in D]; lia.
+    + exact (make_accessible_no_oob _ _ _ _ _ _ HR).
+Qed.
+
 Lemma run_safe : forall ops allocs t s base, WInv t s base -> rops_ok mn mx ops (s_pos s) = true ->
   match r_run pol mn mx ops allocs t with
   | TOk (log, _) => vals_of log = r_spec ops (s_cells s) (s_pos s)
@@ -88,7 +116,7 @@ Lemma run_safe : forall ops allocs t s base, WInv t s base -> rops_ok mn mx ops 
   end.
 Proof.
   induction ops as [|op rest IH]; intros allocs t s base W OK; [reflexivity|].
-  cbn [r_run]. destruct op as [|d|d|k|k v|a b]; cbn [rops_ok r_spec] in *; try discriminate.
+  cbn [r_run]. destruct op as [|d|d|d|k|k v|a b]; cbn [rops_ok r_spec] in *; try discriminate.
   - destruct (if grows t mn (mx + 1) then next_alloc allocs else (true, allocs)) as [ok allocs'].
     destruct (t_make_accessible pol ok t mn (mx + 1)) as [t'|i| |] eqn:M; try exact I.
     + destruct W as (HI & _). destruct (enter_winv _ _ _ _ _ HI M) as [base' W']. apply (IH allocs' t' s base' W' OK).
@@ -97,6 +125,12 @@ Proof.
     destruct (if grows (t_mov t d) mn (mx + 1) then next_alloc allocs else (true, allocs)) as [ok allocs'].
     pose proof (mov_winv t s base d ok _ W Sm eq_refl) as MW.
     destruct (r_probe pol mn mx ok (t_mov t d) d) as [t'|i| |]; try exact I; try contradiction.
+    destruct MW as [base' W']. pose proof (IH allocs' t' _ base' W' OK) as R.
+    destruct (r_run pol mn mx rest allocs' t') as [[vs tf]|i| |]; exact R.
+  - apply andb_prop in OK. destruct OK as [Sm OK]. apply small_spec in Sm.
+    destruct (if grows (t_mov t d) (if d <? 0 then mn else mx) ((if d <? 0 then mn else mx) + 1) then next_alloc allocs else (true, allocs)) as [ok allocs'].
+    pose proof (movj_winv t s base d ok _ W Sm eq_refl) as MW.
+    destruct (r_probe_jit pol mn mx ok (t_mov t d) d) as [t'|i| |]; try exact I; try contradiction.
     destruct MW as [base' W']. pose proof (IH allocs' t' _ base' W' OK) as R.
     destruct (r_run pol mn mx rest allocs' t') as [[vs tf]|i| |]; exact R.
   - apply andb_prop in OK. destruct OK as [Kb OK]. apply andb_prop in Kb. destruct Kb as [K1 K2].
@@ -145,7 +179,7 @@ Lemma urun_safe : forall ops allocs t s base, UInv t s base -> uops_ok m ops (s_
   end.
 Proof.
   induction ops as [|op rest IH]; intros allocs t s base W OK; [reflexivity|].
-  cbn [r_run]. destruct op as [|d|d|k|k v|a b]; cbn [uops_ok r_spec] in *; try discriminate.
+  cbn [r_run]. destruct op as [|d|d|d|k|k v|a b]; cbn [uops_ok r_spec] in *; try discriminate.
   - apply andb_prop in OK. destruct OK as [Sm OK]. apply small_spec in Sm. destruct W as (HI & L & U).
     apply (IH allocs (t_mov t d) {| s_cells := s_cells s; s_pos := s_pos s + d; s_acc := s_acc s |} base); [|exact OK].
     split; [apply (mov_inv t s base HI d Sm)|]. cbn [t_mov t_size]. lia.
